@@ -101,7 +101,7 @@ def run(ctx):
         ctx.cov["pairs_replayed"] = ctx.cov.get("pairs_replayed", 0) + n
 
     # 3. M3: seeded big tables
-    n = 1500 if ctx.thorough else 250
+    n = 4000 if ctx.thorough else 250
     tr = ctx.path("seeded.ndjson")
     ctx.run_bin(binary, ["hs-trace", "--seed", ctx.seed, "--n", n, "--out", tr])
     traces.append(("seeded", tr, vlib.read_ndjson(tr)))
@@ -130,7 +130,7 @@ def run(ctx):
             if not any(k.startswith("%s/%s/" % (impl, case)) for k in ctx.cov["outcomes"]):
                 raise vlib.ToolError("no %s case was exercised for %s" % (case, impl))
     ctx.sample(next(e for e in allev if e["replies"] and e["replies"][0]["t"] == "accept" and len(e["c"]) > 2))
-    ctx.sample(next(e for e in allev if _case(e) == "disjoint" and len(e["s"]) > 1))
+    ctx.sample(next(e for e in allev if _case(e) == "disjoint" and len(e["s"]) > 1 and e["impl"] != "n2"))
 
     # 4. binding self-test on a prefix of the seeded trace
     if not ctx.violations:
